@@ -1035,7 +1035,7 @@ var wantProbes = map[string][]string{
 	"C10": {"cas_failed", "collision_retry", "alert", "sink_stall_forever", "reentrant_alert_write", "pool_reuse_other_task"},
 	"C11": {"cas_failed", "collision_retry", "alert", "sink_slow", "two_closers", "fatal_filtered", "sink_fails_from_now_on", "nil_alerter", "fatal_with_logging_error_handler", "fatal_with_failing_sibling_close", "recovered_panic_event"},
 	"C12": {"cas_failed", "cond_broadcast_no_waiter", "cond_broadcast_woke", "mutex_contended", "never_written", "sink_goexit", "nested_close", "long_burst", "write_after_long_quiet_period", "big_ring_nearly_full"},
-	"C05": {"pool_reuse_other_task", "pool_miss", "open_events_overlap", "pool_non_lifo", "late_update_context", "stateful_sampler", "context_value_used_twice", "output_nil", "logger_variable_reused", "sample_nil", "stack_before_marshaler_installed", "go_context_detached"},
+	"C05": {"pool_reuse_other_task", "pool_miss", "open_events_overlap", "pool_non_lifo", "late_update_context", "stateful_sampler", "context_value_used_twice", "output_nil", "logger_variable_reused", "sample_nil", "stack_before_marshaler_installed", "go_context_detached", "tiny_context_after_reset", "update_of_default_context_logger"},
 	"C13": {"linearizable_histories", "clock_backwards", "clock_jump_forward", "clock_frozen", "sampling_disabled_phase", "level_rejected_event", "huge_burst", "derived_while_sampling_disabled", "timestamp_func_replaced", "fatal_through_sampler", "long_sampler_chain"},
 	"C14": {"dst_error", "dst_short_write", "sync_wrapped_destination", "sync_wrapped_fanout", "fanout_plain_write", "caller_slice_reused", "panic_event", "filter_level_changed", "error_handler_nil", "event_through_logger_write"},
 	"C15": {"linearizable_histories", "mutex_contended", "pool_reuse", "dst_blocks", "dst_error", "huge_line", "writer_field_reassigned"},
